@@ -231,3 +231,117 @@ def register2(reg):
     AsyncWrapper.cell_types = dict(CELLS)
     reg.add(SyncWrapper)
     reg.add(AsyncWrapper)
+
+
+class InjectDecorate(FnSpec):
+    """C19 (decoration time): inject(func) scans signature(func).parameters: a parameter whose default is a resource() marker is recorded
+    under its name unless it is positional-only or unannotated (TypeError, nothing is returned); a default that is the bare `resource`
+    function is rejected (TypeError); with at least one marker the async wrapper is returned for a coroutine function and the sync wrapper
+    otherwise; without markers the function itself is returned."""
+    qual = INJ
+    properties = ("C19",)
+    param_types = {"func": ANY}
+    modifies = "rely"
+    may_raise = True
+    check_guarantee = False
+
+    def requires(self, F):
+        return []
+
+    def init_ghost(self, eng, st):
+        st.ghost["alloc0"] = st.heap["alloc"]
+
+    def _param(self, eng, st):
+        from pyvc import roles
+        return st.env[roles.loop_target_names(eng.fi.node, 0)[0]].t
+
+    def _facts(self, eng, st, H):
+        p = self._param(eng, st)
+        from pyvc.calls import attr_of, ATTRS
+        get = lambda name: z3.If(Val.is_ref(p), H.fld(name, Val.a(p)), attr_of(p, z3.IntVal(ATTRS.id(name))))
+        d = get("default")
+        isdep = z3.And(Val.is_ref(d), subcls(H.fld("__class__", Val.a(d)), con("_Dependency")))
+        posonly = get("kind") == con("inspect.Parameter.POSITIONAL_ONLY")
+        unann = get("annotation") == con("inspect.Parameter.empty")
+        bare = d == con("func:_context.resource")
+        return get, d, isdep, posonly, unann, bare
+
+    def on_loop_body(self, eng, st, k, it):
+        st.ghost["iter_trace_start"] = len(st.trace)
+        st.ghost["iter_heap"] = HeapView(dict(st.heap))
+
+    def on_new_exception(self, eng, st, cls, a, args):
+        if "iter_heap" not in st.ghost:
+            return
+        get, d, isdep, posonly, unann, bare = self._facts(eng, st, st.ghost["iter_heap"])
+        eng.oblige(st, "post", "rejects-only-positional-only-or-unannotated-markers-and-the-bare-resource-function",
+                   z3.And(z3.BoolVal(cls == "TypeError"), z3.Or(z3.And(isdep, z3.Or(posonly, unann)), z3.And(z3.Not(isdep), bare))), cls)
+
+    def _loop0(self, L):
+        from pyvc import roles
+        E, C = L.entry, L.cur
+        st = L.cur_st
+        g = st.ghost
+        inj = Val.a(L.v(roles.assigned_dict_name(L.eng.fi.node)).t)
+        k = z3.Const("k!id", Val)
+        out = [("alloc-monotone", C.alloc >= E.alloc),
+               ("marker-table-is-private-and-holds-markers",
+                z3.And(inj >= g["alloc0"], inj < C.alloc,
+                       z3.ForAll([k], z3.Implies(C.d_has(inj, k), z3.And(Val.is_ref(C.d_get(inj, k)), 0 <= Val.a(C.d_get(inj, k)), Val.a(C.d_get(inj, k)) < C.alloc,
+                                                                         subcls(C.fld("__class__", Val.a(C.d_get(inj, k))), con("_Dependency")))),
+                                 patterns=[C.d_get(inj, k)])))]
+        if "iter_heap" in g and st is not L.entry_st and len(st.trace) >= g.get("iter_trace_start", 0):
+            tr = st.trace[g["iter_trace_start"]:]
+            stores = [e for e in tr if e[0] == "dstore"]
+            get, d, isdep, posonly, unann, bare = self._facts(L.eng, st, g["iter_heap"])
+            if stores:
+                e = stores[-1]
+                kk = e[2].t if isinstance(e[2], SV) else e[2]
+                vv = e[3].t if isinstance(e[3], SV) else e[3]
+                out.append(("records-a-valid-marker-under-the-parameter-name",
+                            z3.And(z3.BoolVal(len(stores) == 1), isdep, z3.Not(posonly), z3.Not(unann), kk == get("name"), vv == d)))
+            else:
+                out.append(("skips-only-parameters-without-a-marker", z3.And(z3.Not(isdep), z3.Not(bare))))
+        return out
+
+    def local_ensures(self, F):
+        from pyvc import roles
+        st = F.new_st
+        inj = Val.a(st.env[roles.assigned_dict_name(F.eng.fi.node)].t)
+        nonempty = F.new.d_len(inj) != 0
+        isco = iscoroutinefunction_u(F.t("func"))
+        aw = F.eng.make_closure(st, None, INJ + ".async_wrapper").t
+        sw = F.eng.make_closure(st, None, INJ + ".sync_wrapper").t
+        return [("returns-the-matching-wrapper-or-the-function-itself",
+                 F.result.t == z3.If(nonempty, z3.If(isco, aw, sw), F.t("func")))]
+
+    def __init__(self):
+        self.loops = {0: self._loop0}
+
+
+iscoroutinefunction_u = z3.Function("iscoroutinefunction_u", Val, B)
+
+
+def register3(reg):
+    reg.ext_calls["inspect.iscoroutinefunction"] = lambda eng, st, pos, kw, node: [Res(st, SV(vbool(iscoroutinefunction_u(pos[0].t)), TBOOL))]
+    reg.ext_calls["inspect.isasyncgenfunction"] = lambda eng, st, pos, kw, node: [Res(st, SV(fresh("isagf"), TBOOL))]
+
+    def pure_any(eng, st, pos, kw, node):
+        st.uses.add("AX-ITER-PURE")
+        return [Res(st, SV(fresh("ext"), ANY))]
+    reg.lib_classes |= {"Signature"}
+    reg.lib_schema["Signature"] = {"parameters": DICT(TSTR, ANY)}
+
+    def signature(eng, st, pos, kw, node):
+        """inspect.signature(func): an object whose `parameters` is a mapping name -> Parameter, created by this call (AX-ITER-PURE: no
+        other effect; iterating it has none either)"""
+        st.uses.add("AX-ITER-PURE")
+        from .lib_anyio import new_lib
+        v = new_lib(eng, st, "Signature")
+        d = st.new_dict(fresh("sig_has", KB), fresh("sig_get", KV), fresh("sig_len", I))
+        st.set_fld("parameters", Val.a(v.t), vref(d))
+        return [Res(st, v)]
+    reg.ext_calls["inspect.signature"] = signature
+    reg.ext_calls.setdefault("sys._getframe", pure_any)
+    reg.ext_calls.setdefault("functools.wraps", pure_any)
+    reg.add(InjectDecorate)
